@@ -297,7 +297,7 @@ VF_NOINLINE static void stageBody(int k, uint32_t id, uint32_t tag) {
       g_genCallsAtThrow = g_genCalls;
     }
     g_thrown++;
-    vf_throw(code);
+    throw (int)code;
   }
 #endif
   g_in[k]--;
@@ -337,7 +337,7 @@ struct Gen {
         g_genCallsAtThrow = g_genCalls;
       }
       g_thrown++;
-      vf_throw(code);
+      throw (int)code;
     }
 #endif
     return dispenso::OpResult<Item>(Item(i, g_seed[i]));
@@ -424,16 +424,10 @@ VF_NOINLINE static void callPipeline(ThreadPool& pool) {
 #endif
 }
 
-// id of the exception being handled (call inside a catch block).  Model: the exception object is the
-// token 0x1000 + id (rt/cbmc_rt.c vf_throw); native: the thrown int.
+// code of the exception being handled (call inside a catch block): stages throw `(int)code`
 static inline uint32_t caughtId() {
   std::exception_ptr e = std::current_exception();
-  void* obj = e._M_exception_object;
-  uintptr_t u = (uintptr_t)obj;
-  if (u >= 0x1000 && u < 0x1040) {
-    return (uint32_t)(u - 0x1000);
-  }
-  return (uint32_t) * static_cast<int*>(obj);
+  return (uint32_t) * static_cast<int*>(e._M_exception_object);
 }
 
 // Symbolic inputs + caller context; returns extra pool load to remove afterwards.
